@@ -11,7 +11,7 @@
 //! therefore reached by a real call history, and a reported sequence is a shortest one.
 //!
 //! Alphabet (from `new(c)`, c in 1..=C; indexes start at 1, `next` = last added + 1;
-//! quick: C = 4 and at most 8 adds per history, thorough: C = 6 and at most 12 adds):
+//! quick: C = 4 and at most 8 adds per history, thorough: C = 7 and at most 14 adds):
 //!   add(next), add(next+2)      only when the model is not full (documented panic otherwise)
 //!                               and fewer than ADD_BOUND adds were made
 //!   free_to(v)                  v in first-1 ..= last+1 (every element, every gap, both outsides);
@@ -547,7 +547,7 @@ fn shuffle<T>(v: &mut [T], seed: u64) {
 
 pub fn run(tier: &str, seed: u64, budget_s: f64, threads: usize) -> CompResult {
     let t0 = Instant::now();
-    let (add_bound, max_cap): (u32, usize) = if tier == "thorough" { (12, 6) } else { (8, 4) };
+    let (add_bound, max_cap): (u32, usize) = if tier == "thorough" { (14, 7) } else { (8, 4) };
     let state_cap: usize = 40_000_000;
     let deadline = t0 + std::time::Duration::from_secs_f64((budget_s * 0.9).max(1.0));
     let threads = threads.clamp(1, 64);
